@@ -243,6 +243,15 @@ def main():
         ob.verify(ex, 'law:' + names[law], simp(zbool(r1) == zbool(r2)), d)
         ob.verify(ex, 'deterministic:' + names[law], simp(zbool(r1) == zbool(r3)), d)
     chk.run('boolean-laws', prog, law_harness, bounds={'laws': 5, 'leaf kinds': 9}, merge=MERGE)
+    # routing: publish delivers to a filtered subscription iff the stored filter matches (the parser verdict / match predicate are
+    # uninterpreted here and pinned to the real semantics on a two-filter vocabulary; the evaluator itself is decided above)
+    import checks.transitions as tr
+    import checks.oracles as O
+    from gosym.step import run_transition
+    T = tr.Publish()
+    T.name = 'routing:publish-delivers-iff-filter-matches'
+    T.oracle = lambda ex, S: O.c01_publish(ex, S, T)
+    run_transition(chk, prog, T, max_paths=200000)
     chk.samples = [{'shape': show(s), 'symbolic': 'names, values, NOT flags, operator, attribute map'} for s in shapes[:3] + shapes[-2:]]
     chk.finish()
 
